@@ -133,6 +133,10 @@ CORPUS = [
     # eed8b67: a C comment between an entry and the repeat shortcut after it was written twice
     ("corpus-shortcut-comment", "shortcut comment\n1 0 -1\n2 0 1 -2\n3 0 2 -3\n4 0 3 -4\n5 0 4\n\n1 so 1\n2 so 2\n3 so 3\n4 so 4\n\n"
      "imp:n 1 1 1 1 0\nu 2j 37\nC fuel region\n       2r\nnps 10\n\n"),
+    # seeded C01b: a lattice cell filled with a matrix of universes that is not symmetric under an index swap
+    ("corpus-lattice-matrix", "lattice matrix\n1 0 -1 u=10 lat=1 fill=0:1 0:2 0:0 2 3 4 5 6 7 imp:n=1\n2 0 -2 u=2 imp:n=1\n3 0 -2 u=3 imp:n=1\n"
+     "4 0 -2 u=4 imp:n=1\n5 0 -2 u=5 imp:n=1\n6 0 -2 u=6 imp:n=1\n7 0 -2 u=7 imp:n=1\n8 0 -3 fill=10 imp:n=1\n9 0 3 imp:n=0\n\n"
+     "1 rpp -1 1 -1 1 -1 1\n2 so 5\n3 so 50\n\nmode n\n\n"),
     # 3f161a1: the line break after a cell modifier's value was replaced by a blank
     ("corpus-modifier-line-break", "line break after vol\n837 0 (927 :     113 ) 8   113    113 -8   imp:n=2.0000     Imp:P=1 vol=31.0\n     U 20\n"
      "2 0 -8 imp:n,p=1 u=20\n\n8 so 1\n113 so 2\n927 so 3\n\nmode n p\n\n"),
